@@ -346,7 +346,7 @@ func (r *runner) checkpoint(o *opJ) {
 		case "before":
 			r.c.ReleasePublication()
 			r.wait(published(true))
-			r.c.AwaitCurrent(id, 100*time.Millisecond)
+			r.c.AwaitCurrent(id, 20*time.Second)
 			r.crash(cr)
 		case "deploy":
 			hook := func(first bool) {
@@ -372,7 +372,7 @@ func (r *runner) checkpoint(o *opJ) {
 		r.tags["ckpt-not-published"] = true
 		return
 	}
-	r.c.AwaitCurrent(id, 100*time.Millisecond) // the store has recorded it too: a surviving job restarts from it
+	r.c.AwaitCurrent(id, 20*time.Second) // the store has recorded it too: a surviving job restarts from it
 	r.tags["ckpt-published"] = true
 	r.flushedAtCkpt = sstCount(r.c.WorkDir()) > 0
 }
